@@ -286,7 +286,8 @@ func processFunctionAndAnons(fn *ssa.Function, policy ir.LiteralPolicy, strictMo
 	}
 	visited[fn] = true
 
-	if fn.Synthetic != "" && fn.Name() != "init" {
+	// Range-over-func loop bodies are compiled into synthetic functions but carry source statements.
+	if fn.Synthetic != "" && fn.Name() != "init" && !strings.HasPrefix(fn.Synthetic, "range-over-func") {
 		return
 	}
 
